@@ -54,8 +54,8 @@ LEVEL_TEXT = ("Lean 4 theorem decode_construct: for EVERY registry satisfying th
               "TableOK2 of the regenerated registries is re-proved each run (tables_ok2, decide +kernel).")
 LEVEL_NOTE = ("Trusted: Lean kernel + 3 axioms; translator; the hand models of constructors and from_frame tied by "
               "differential execution (exhaustive on the small parameter domains, sampled elsewhere)."
-              " The frame-assembling constructors of 276 command classes and the event constructor (push-button, light) are in addition re-translated from the source on every run (path tracing) and proved equal to the model (Tie/Command.lean, Tie/Event.lean); when that tie cannot be established on a tree the differential tie alone is used, at thorough depth.")
-TECHNIQUE = "Lean 4 proof of decode(encode(c)) = c generic over regenerated registries (TableOK2 by decide +kernel; omega on slice arithmetic) + per-class differential construction/decoding + source translation tie (Tie/Command, Tie/Event, Tie/Address: the constructors re-translated from the source on every run are proved equal to the model)"
+              " The frame-assembling constructors of 314 command classes (standard, DAPC, device/instance, and - reading int.from_bytes through a documented shim - the 16-bit special, short-address special, Initialise and 24-bit special commands) and the event constructor (push-button, light, occupancy with integer data) are in addition re-translated from the source on every run (path tracing) and proved equal to the model (Tie/Command.lean, Tie/Special.lean, Tie/Event.lean); when that tie cannot be established on a tree the differential tie alone is used, at thorough depth.")
+TECHNIQUE = "Lean 4 proof of decode(encode(c)) = c generic over regenerated registries (TableOK2 by decide +kernel; omega on slice arithmetic) + per-class differential construction/decoding + source translation tie (Tie/Command, Tie/Special, Tie/Event, Tie/Address: the constructors re-translated from the source on every run are proved equal to the model)"
 
 
 def family(c):
